@@ -11,7 +11,9 @@ from . import common
 
 TP = None
 STYLES = [("", "", False), ("  ", " # c", False), ("\t", "  # note: x", False), ("      ", "", False),
-          ("  ", "", True)]      # (indentation of % lines, trailing comment, header continued over two lines with a backslash)
+          ("  ", "", True),      # (indentation of % lines, trailing comment, header continued over two lines with a backslash)
+          ("", "", "paren"),     # no blank between the keyword and a parenthesised condition: % if(c(1)):
+          ("", " # c", "literal")]   # the condition carries a string literal with ':#' and ': #' in it, and a comment follows
 INDENTS = [s_[0] for s_ in STYLES]
 COMMENTS = [s_[1] for s_ in STYLES]
 
@@ -40,7 +42,14 @@ class Gen:
         return self.k
 
     def ctl(self, text):
-        if self.continued and " " in text:
+        if self.continued in ("paren", "literal"):
+            import re as _re
+            m = _re.match(r"(if|elif|while) (.*):$", text)
+            if m and self.continued == "paren":
+                text = "%s(%s):" % m.group(1, 2)
+            elif m:
+                text = "%s %s == [':#', ': # x'][0:0] or %s:" % (m.group(1), "[1]", m.group(2))
+        elif self.continued and " " in text:
             kw, rest = text.split(" ", 1)
             text = kw + " \\\n        " + rest          # the header goes on after a backslash-newline
         return "%s%% %s%s\n" % (self.indent, text, self.comment if not text.startswith("end") else "")
@@ -92,9 +101,13 @@ class Gen:
             return tmpl + self.ctl("endif"), py
         if kind == 1:       # for (optionally using loop), over a list, a lazy generator or a string
             return self.for_loop(d, ind, k=k)
-        if kind == 2:       # while
+        if kind == 2:       # while (optionally with an else clause)
             t1, p1 = self.body(d, i2)
-            return self.ctl("while w(%d):" % k) + t1 + self.ctl("endwhile"), [ind + "while w(%d):" % k] + p1
+            tmpl, py = self.ctl("while w(%d):" % k) + t1, [ind + "while w(%d):" % k] + p1
+            if not self.simple and p.choose(2, "while_else"):
+                tmpl += self.ctl("else:") + "we%d\n" % k
+                py += [ind + "else:", i2 + "out.append('we%d')" % k]
+            return tmpl + self.ctl("endwhile"), py
         if kind == 3:       # try / except (one or two clauses)
             t1, p1 = self.body(d, i2)
             tmpl = self.ctl("try:") + "${boom(%d)}\n" % k + t1 + self.ctl("except Boom:") + "x%d\n" % k
@@ -102,6 +115,14 @@ class Gen:
             if not self.simple and p.choose(2, "second_except_clause"):
                 tmpl += self.ctl("except KeyError:") + "y%d\n" % k
                 py += [ind + "except KeyError:", i2 + "out.append('y%d')" % k]
+            if not self.simple:
+                tail = p.choose(4, "try_tail")          # nothing / else / finally / else + finally
+                if tail in (1, 3):
+                    tmpl += self.ctl("else:") + "te%d\n" % k
+                    py += [ind + "else:", i2 + "out.append('te%d')" % k]
+                if tail in (2, 3):
+                    tmpl += self.ctl("finally:") + "tf%d\n" % k
+                    py += [ind + "finally:", i2 + "out.append('tf%d')" % k]
             return tmpl + self.ctl("endtry"), py
         t1, p1 = self.body(d, i2)      # with
         return self.ctl("with cm(%d) as v%d:" % (k, k)) + "${v%d}\n" % k + t1 + self.ctl("endwith"), \
@@ -128,9 +149,13 @@ def _for_loop(self, d, ind, k=None, inner=False):
     if self.loop_mode == "disabled" and use:
         # with enable_loop=False `loop` is whatever the context holds under that name
         extra, pyx = "${loop}\n", [i2 + "out.append('ordinary-loop')"]
-    tmpl = self.ctl("for i%d in %s:" % (k, it)) + extra + t1 + self.ctl("endfor")
+    tmpl = self.ctl("for i%d in %s:" % (k, it)) + extra + t1
     py = [ind + "for n%d, i%d in enumerate(%s):" % (k, k, it)] + pyx + p1
-    return tmpl, py
+    if not self.simple and not inner and p.choose(2, "for_else"):
+        # the else clause runs after exhaustion (nothing in the grammar breaks out); `loop` there is the enclosing loop's again
+        tmpl += self.ctl("else:") + "fe%d\n" % k
+        py += [ind + "else:", i2 + "out.append('fe%d')" % k]
+    return tmpl + self.ctl("endfor"), py
 
 
 Gen.for_loop = _for_loop
@@ -226,7 +251,7 @@ def h_grammar(depth):
             exec(compile("\n".join(py) + "\n", "<reference>", "exec"), ns)
         except Exception as ex:
             ref_exc = ex
-        return dict(loop_mode=g.loop_mode, tmpl=tmpl, py=py, out=out, exc=exc, ref="".join(ns["out"]), ref_exc=ref_exc, ev=ev, ref_ev=reset(),
+        return dict(style=g.continued if isinstance(g.continued, str) else ("continued" if g.continued else ""), loop_mode=g.loop_mode, tmpl=tmpl, py=py, out=out, exc=exc, ref="".join(ns["out"]), ref_exc=ref_exc, ev=ev, ref_ev=reset(),
                     flags={k: bool(v) for k, v in flags.items()})
     return h
 
@@ -239,13 +264,17 @@ def on_grammar(p, r, exc, acc):
     acc.vcs += 1
     got = None if r["out"] is None else "".join(r["out"].split())
     desc = dict(template=r["tmpl"], python="\n".join(r["py"]), decisions=r["flags"], loop_mode=r["loop_mode"])
+    # the kind names the constructs involved, so that the replay budget is spread over different constructs and styles
+    import re as _re
+    kws = sorted(set(_re.findall(r"^\s*% *(if|for|while|try|with|else|finally)\b", r["tmpl"], _re.M)))
+    feature = "control-flow-" + "-".join(kws) + ("-" + r["style"] if r.get("style") else "")
     if r["ref_exc"] is not None:
         acc.counts["reference raised (%s)" % type(r["ref_exc"]).__name__] += 1
         if r["exc"] is None or type(r["exc"]) is not type(r["ref_exc"]):
-            acc.candidate(kind="control-flow", input=desc, detail="python raises %r, template gave %r / %r" % (r["ref_exc"], got, r["exc"]))
+            acc.candidate(kind=feature, input=desc, detail="python raises %r, template gave %r / %r" % (r["ref_exc"], got, r["exc"]))
         return
     if r["exc"] is not None or got != r["ref"]:
-        acc.candidate(kind="control-flow", input=desc, detail="rendered %r (exception %r), python semantics give %r" % (got, r["exc"], r["ref"]))
+        acc.candidate(kind=feature, input=desc, detail="rendered %r (exception %r), python semantics give %r" % (got, r["exc"], r["ref"]))
     elif r["ev"] != r["ref_ev"]:
         acc.candidate(kind="evaluation-order", input=desc, detail="events %r, python semantics give %r" % (r["ev"], r["ref_ev"]))
     elif len(r["tmpl"]) > 60:
